@@ -5,6 +5,7 @@ import Ggql.Gen.Coerce
 import Ggql.Gen.Tables
 import Ggql.Gen.Intro
 import Ggql.Gen.Parse
+import Ggql.Gen.Dispatch
 open Ggql Ggql.Driver
 
 def genTables : Tables :=
@@ -21,6 +22,7 @@ def genTables : Tables :=
     outTime := Gen.coerceOutTime, inTime := Gen.coerceInTime,
     introTable := Gen.introTable, locateTable := Gen.locateTable, metaLiteral := Gen.metaContainerLiteral,
     sdlEmptyTokenSpins := Gen.sdlEmptyTokenSpins,
-    exeVarTypeOptional := Gen.exeVarTypeOptional }
+    exeVarTypeOptional := Gen.exeVarTypeOptional,
+    opFallbackAnyName := Gen.opFallbackAnyName }
 
 def main (args : List String) : IO Unit := run genTables args
